@@ -142,9 +142,16 @@ def derivedOp : Op
             .list ((matrixRows g).map (fun e => ofNats [e.1, e.2]))]
   | _ => none
 
+/-- `C18.eps_slots nTop nBottomPerId nSim R T`: the positions a filter posterior reads as `ε[s, r, j]`, in the
+    order (s, r, j) -/
+def epsSlotsOp : Op
+  | [.int nTop, .int nB, .int nSim, .int r, .int t] =>
+    some [ofNats (epsSlots nTop.toNat nB.toNat nSim.toNat r.toNat t.toNat)]
+  | _ => none
+
 def ops : List (String × Op) :=
   [("C18.format_chains", formatOp), ("C18.roundtrip", roundtrip), ("C18.init_row", initOp), ("C18.init_row_legacy", initLegacyOp),
    ("C18.init_row_filter", initFilterOp), ("C18.table", tableOp),
-   ("C18.table_outcomes", tableOutcomesOp), ("C18.derived", derivedOp)]
+   ("C18.table_outcomes", tableOutcomesOp), ("C18.derived", derivedOp), ("C18.eps_slots", epsSlotsOp)]
 
 end ChiDriver.C18
